@@ -119,10 +119,16 @@ def iso_pdf_table(n):
 LN2 = math.log(2.0)
 
 
+class ExtremeDensity(Exception):
+    """a log-density so small that its exact rational would have billions of bits"""
+
+
 def exp_frac(l):
     """exact rational within ~1e-15 relative of exp(l), for any float l (no under/overflow)"""
     if l == -math.inf:
         return Fraction(0)
+    if l < -20000.0 or l > 20000.0:
+        raise ExtremeDensity(l)
     k = math.floor(l / LN2)
     m = math.exp(l - k * LN2)
     return Fraction(m) * (Fraction(2) ** k)
